@@ -5,6 +5,7 @@ def c05 (input implOut : Sexp) : Option Verdict :=
   match input with
   | .list (.atom "api" :: _) => C05.api input implOut
   | .list (.atom "run" :: _) => C05.run input implOut
+  | .list (.atom "comp" :: _) => C05.comp input implOut
   | _ => none
 
 def main : IO Unit := driverMain (respond c05)
